@@ -485,6 +485,69 @@ func c01Spaces(c *fw.Ctx) {
 			}
 		})
 
+	c.Space("opt-edited", "an OPT record unpacked from octets with option list A (its header then holds A's RDLENGTH), whose Option list is then replaced by list B — every ordered pair of the option alphabet: PackRR and Msg.Pack give the reference octets for B, Len(rr) ≥ the packed length; the same with B packed first by PackRR (which stores B's RDLENGTH) and A assigned afterwards; non-trivial: the lists differ in length", true,
+		func(emit func(func(*fw.R))) {
+			s := wire.Specs[41]
+			var lists [][]wire.Option
+			for _, v := range enum.Alphabet(s, 0) {
+				if optCanonical([]wire.Val{v}) {
+					lists = append(lists, v.Opts)
+				}
+			}
+			mkOPT := func(opts []wire.Option) (dns.RR, []byte) {
+				ar := &wire.RR{Name: nil, Type: 41, Class: 1232, TTL: 0, Vals: []wire.Val{{Opts: opts}}}
+				w, _ := wire.EncodeRR(nil, ar)
+				rr, err := bind.ToGo(ar)
+				if err != nil {
+					return nil, nil
+				}
+				return rr, w
+			}
+			for ai := range lists {
+				ai := ai
+				emit(func(r *fw.R) {
+					for bi := range lists {
+						_, wa := mkOPT(lists[ai])
+						rb, wb := mkOPT(lists[bi])
+						if wa == nil || rb == nil {
+							continue
+						}
+						if len(wa) != len(wb) {
+							r.Nontrivial()
+						}
+						for mode := 0; mode < 2; mode++ {
+							var used *dns.OPT
+							if mode == 0 {
+								u, _, err := dns.UnpackRR(wa, 0)
+								if err != nil {
+									continue
+								}
+								used = u.(*dns.OPT)
+							} else {
+								ra, _ := mkOPT(lists[ai])
+								dns.PackRR(ra, make([]byte, 70000), 0, nil, false)
+								used = ra.(*dns.OPT)
+							}
+							used.Option = rb.(*dns.OPT).Option
+							buf := make([]byte, 70000)
+							n, err := dns.PackRR(used, buf, 0, nil, false)
+							if err != nil || !bytes.Equal(buf[:n], wb) {
+								r.Fail("opt-edited/pack", "an OPT that held options %v (mode %d) and was given %v packs to %x, %v; reference %x", lists[ai], mode, lists[bi], buf[:max(n, 0)], err, wb)
+								continue
+							}
+							if l := dns.Len(used); l < n {
+								r.Fail("opt-edited/len", "Len = %d < packed %d for an OPT that held options %v and was given %v", l, n, lists[ai], lists[bi])
+							}
+							m := &dns.Msg{MsgHdr: dns.MsgHdr{Id: 1, Response: true}, Extra: []dns.RR{used}}
+							if mb, err := m.Pack(); err != nil || !bytes.Equal(mb[12:], wb) {
+								r.Fail("opt-edited/msg-pack", "Msg.Pack with an OPT that held options %v and was given %v: %v", lists[ai], lists[bi], err)
+							}
+						}
+					}
+				})
+			}
+		})
+
 	c.Space("optional-fields", "RDATA layouts with an optional trailing field that the reference table writes in full: ISDN without its sub-address (RFC 1183 §3.2: <ISDN-address> alone is well-formed) — unpacks to the address, and packing the result reproduces the octets; non-trivial: all", true,
 		func(emit func(func(*fw.R))) {
 			emit(func(r *fw.R) {
